@@ -25,7 +25,7 @@ func init() {
 		ID:    "C11",
 		Level: "exploration",
 		Rule: "systematic first: every unordered pair (incl. self pairs) of operation kinds {Filter numeric/like/ilike/user predicate/composite/enum set, Sort, Distinct, GroupBy->Aggregate, GroupBy->QFrames, Apply 0/1/2 argument, built-in ToUpper on string and enum, constant/copy, FilteredApply, Eval with default and with one shared user context, WithRowNums, Select/Drop/Slice/Copy, all typed views, ToCSV, ToJSON, String, Equals, ByteSize/ColumnTypeMap} " +
-			"runs concurrently (2 goroutines per side, common barrier, 3 repetitions, GOMAXPROCS varied, user callbacks that yield) on the same frame / on a frame and one derived from it sharing its index array / on two siblings sharing columns / on a parent that was itself produced by adding a column, for root kinds slice-backed, Const*, CSV-blob-backed and enum-heavy; then random storms of 2-16 goroutines; " +
+			"runs concurrently (2 goroutines per side, common barrier, 2 repetitions of two back-to-back executions, GOMAXPROCS varied, user callbacks that yield) on the same frame / on a frame and one derived from it sharing its index array / on two siblings sharing columns / on a parent that was itself produced by adding a column, for root kinds slice-backed, Const*, CSV-blob-backed and enum-heavy; then random storms of 2-16 goroutines; " +
 			"deciding instruments: the Go race detector (every worker runs the -race build; reports are collected from its log) and comparison of every concurrent result with the same operation's result computed alone before and after; " +
 			"evaluation = one concurrent execution of one operation; non-trivial = pair execution whose two sides overlapped in time (measured from one monotonic clock); distinct by (operation pair, relation, root kind)",
 		Assumptions: []string{
@@ -35,9 +35,9 @@ func init() {
 		Stages: func(tier string) []fw.Stage {
 			np := c11Pairs()
 			if tier == "quick" {
-				return []fw.Stage{{Name: "race", Flavour: "race", Cases: np*2 + 60, MaxProcs: 8}}
+				return []fw.Stage{{Name: "race", Flavour: "race", Cases: np*2 + 30, MaxProcs: 14}}
 			}
-			return []fw.Stage{{Name: "race", Flavour: "race", Cases: np*16 + 3000, MaxProcs: 8}}
+			return []fw.Stage{{Name: "race", Flavour: "race", Cases: np*16 + 3000, MaxProcs: 14}}
 		},
 		RunCase: runC11,
 		Conclude: func(tier string, c map[string]int64, _ []string) string {
@@ -302,8 +302,15 @@ func c11Root(rng *rand.Rand, kind string, n int) (qframe.QFrame, *c11Env, error)
 						col.S[r] = model.StrP(enumVals[rng.Intn(len(enumVals))])
 					}
 				}
-				if kind == "const" && r > 0 && j == 0 {
-					col.Set(r, col, 0)
+				if kind == "const" && j == 0 {
+					if r == 0 && (k == model.KString || k == model.KEnum) && col.S[0] == nil {
+						// a constant null key column makes every row its own group with one common hash under
+						// Null(false): qframe then probes quadratically (a performance trait, not a property)
+						col.S[0] = model.StrP("v1")
+					}
+					if r > 0 {
+						col.Set(r, col, 0)
+					}
 				}
 			}
 			if k == model.KEnum {
@@ -374,7 +381,7 @@ func runC11(c *fw.Case) {
 	rng := c.Rng
 	ops := c11Ops()
 	np := c11Pairs()
-	n := 1500 + rng.Intn(1500)
+	n := 700 + rng.Intn(1100)
 	if c.Thorough() && rng.Intn(8) == 0 {
 		n = 8000
 	}
@@ -385,34 +392,48 @@ func runC11(c *fw.Case) {
 		kindIx, relIx = rng.Intn(len(c11RootKinds)), rng.Intn(len(c11Relations))
 	}
 	storm := c.No >= np*2 && !c.Thorough() || c.No >= np*16
-	root, env, err := c11Root(rng, c11RootKinds[kindIx], n)
-	if err != nil {
+	if c.No%50 == 11 {
+		n = 33000 + rng.Intn(8000) // frames beyond 2^15 rows (size thresholds of pooled or cached structures)
+		c.Count("large_frames", 1)
+	}
+	// Two identical roots are built from the same PRNG state: the sequential reference results are computed on the
+	// first one, the concurrent phase runs on the second one, which has never been touched before - so anything
+	// that is initialised lazily on first use is initialised *during* the concurrent phase.
+	rootSeed := rng.Int63()
+	seqRoot, _, err0 := c11Root(rand.New(rand.NewSource(rootSeed)), c11RootKinds[kindIx], n)
+	root, env, err := c11Root(rand.New(rand.NewSource(rootSeed)), c11RootKinds[kindIx], n)
+	if err != nil || err0 != nil {
 		c.Count("root_build_failed", 1)
 		return
 	}
 	// frames related to the root
-	var fa, fb qframe.QFrame
-	switch c11Relations[relIx] {
-	case "same-frame":
-		fa, fb = root, root
-	case "parent-child(shared index)":
-		sorted := root.Sort(qframe.Order{Column: env.cols[model.KInt][0]}, qframe.Order{Column: model.IDCol, Reverse: true})
-		fa, fb = sorted, sorted.Slice(10, sorted.Len()-10)
-	case "siblings(shared columns)":
-		fa = root.Filter(qframe.Filter{Column: model.IDCol, Comparator: func(x int) bool { return x%3 != 0 }})
-		fb = root.Sort(qframe.Order{Column: env.cols[model.KFloat][0], Reverse: true}, qframe.Order{Column: model.IDCol})
-	default:
-		g := root.Copy("extra1", env.cols[model.KInt][0]).Apply(qframe.Instruction{Fn: 2, DstCol: "extra2"})
-		fa, fb = g, g
+	related := func(root qframe.QFrame) (fa, fb qframe.QFrame) {
+		switch c11Relations[relIx] {
+		case "same-frame":
+			fa, fb = root, root
+		case "parent-child(shared index)":
+			sorted := root.Sort(qframe.Order{Column: env.cols[model.KInt][0]}, qframe.Order{Column: model.IDCol, Reverse: true})
+			fa, fb = sorted, sorted.Slice(10, sorted.Len()-10)
+		case "siblings(shared columns)":
+			fa = root.Filter(qframe.Filter{Column: model.IDCol, Comparator: func(x int) bool { return x%3 != 0 }})
+			fb = root.Sort(qframe.Order{Column: env.cols[model.KFloat][0], Reverse: true}, qframe.Order{Column: model.IDCol})
+		default:
+			g := root.Copy("extra1", env.cols[model.KInt][0]).Apply(qframe.Instruction{Fn: 2, DstCol: "extra2"})
+			fa, fb = g, g
+		}
+		return fa, fb
 	}
-	if fa.Err != nil || fb.Err != nil {
+	fa, fb := related(root)
+	sa, sb := related(seqRoot)
+	if fa.Err != nil || fb.Err != nil || sa.Err != nil || sb.Err != nil {
 		c.Count("root_build_failed", 1)
 		return
 	}
 
 	type job struct {
 		op    c11Op
-		frame qframe.QFrame
+		frame qframe.QFrame // used in the concurrent phase (fresh)
+		seq   qframe.QFrame // identical frame used for the sequential reference
 		side  int
 	}
 	var jobs []job
@@ -428,8 +449,22 @@ func runC11(c *fw.Case) {
 			}
 			k -= len(ops) - i
 		}
+		if n >= 33000 {
+			// large frames: pairs among the operations whose internal structures depend on the frame size
+			var sized []int
+			for k, o := range ops {
+				switch o.name {
+				case "Distinct", "GroupBy.Aggregate", "GroupBy.QFrames", "Sort":
+					sized = append(sized, k)
+				}
+			}
+			i, j = sized[rng.Intn(len(sized))], sized[rng.Intn(len(sized))]
+			if rng.Intn(2) == 0 {
+				j = i
+			}
+		}
 		label = fmt.Sprintf("pair {%s | %s} on %s, root %s (%d rows)", ops[i].name, ops[j].name, c11Relations[relIx], c11RootKinds[kindIx], n)
-		jobs = []job{{ops[i], fa, 0}, {ops[i], fa, 0}, {ops[j], fb, 1}, {ops[j], fb, 1}}
+		jobs = []job{{ops[i], fa, sa, 0}, {ops[i], fa, sa, 0}, {ops[j], fb, sb, 1}, {ops[j], fb, sb, 1}}
 		c.Count("relation:"+c11Relations[relIx], 1)
 		c.Count("root:"+c11RootKinds[kindIx], 1)
 	} else {
@@ -437,16 +472,33 @@ func runC11(c *fw.Case) {
 		names := []string{}
 		for k := 0; k < g; k++ {
 			o := ops[rng.Intn(len(ops))]
-			fr := fa
+			fr, sq := fa, sa
 			if rng.Intn(2) == 0 {
-				fr = fb
+				fr, sq = fb, sb
 			}
-			jobs = append(jobs, job{o, fr, k})
+			jobs = append(jobs, job{o, fr, sq, k})
 			names = append(names, o.name)
 		}
 		sort.Strings(names)
 		label = fmt.Sprintf("storm of %d goroutines %v on %s, root %s", g, names, c11Relations[relIx], c11RootKinds[kindIx])
 		c.Count("storms", 1)
+	}
+	iters := 2
+	if n >= 33000 {
+		// hot loop on a large frame: 8 goroutines x 12 back-to-back executions of size-sensitive operations
+		iters = 12
+		a, b := jobs[0], jobs[len(jobs)-1]
+		jobs = nil
+		for k := 0; k < 8; k++ {
+			jb := a
+			if k%2 == 1 {
+				jb = b
+			}
+			jb.side = k % 2
+			jobs = append(jobs, jb)
+		}
+		label += fmt.Sprintf(" [hot loop: 8 goroutines x %d executions]", iters)
+		runtime.GOMAXPROCS(8)
 	}
 	c.Describe(map[string]interface{}{"execution": label, "gomaxprocs": runtime.GOMAXPROCS(0)})
 
@@ -455,14 +507,17 @@ func runC11(c *fw.Case) {
 	seq := make([]uint64, len(jobs))
 	ok := c.GuardFail("sequential", label, func() {
 		for k, jb := range jobs {
-			seq[k] = jb.op.run(env, jb.frame, noYield)
+			seq[k] = jb.op.run(env, jb.seq, noYield)
 		}
 	})
 	if !ok {
 		return
 	}
-	reps := 3
+	reps := 2
 	overlapped := false
+	if n >= 33000 {
+		reps = 1
+	}
 	for rep := 0; rep < reps && !c.Failed(); rep++ {
 		res := make([]uint64, len(jobs))
 		pan := make([]interface{}, len(jobs))
@@ -484,7 +539,17 @@ func runC11(c *fw.Case) {
 				}
 				<-start
 				t0[k] = time.Now()
-				pv, _ := fw.Guard(func() { res[k] = jb.op.run(env, jb.frame, yield) })
+				pv, _ := fw.Guard(func() {
+					// the operation runs several times back to back so that starts and ends of different goroutines interleave
+					first := jb.op.run(env, jb.frame, yield)
+					res[k] = first
+					for it := 1; it < iters; it++ {
+						if h := jb.op.run(env, jb.frame, yield); h != first {
+							res[k] = h ^ 0x5bd1e995 // differs from the sequential result in any case
+							return
+						}
+					}
+				})
 				t1[k] = time.Now()
 				pan[k] = pv
 			}(k)
